@@ -122,6 +122,7 @@ type sched struct {
 	cancelled  bool
 	serveDone  chan struct{}
 	hasServer  bool
+	sib        *sibling
 	ref        *sut.Ref
 	publishSeq int
 	tinyBudget int
@@ -220,6 +221,11 @@ func run(p *plan.Plan, res *Result) {
 		cancel()
 		return
 	}
+	if p.Scen.Sibling > 0 && provider != nil && p.Scen.Server != "lookup" {
+		s.sib = startSibling(ctx, p.Scen.Sibling)
+		synctest.Wait()
+		s.recGauges("sibling")
+	}
 	// parking sites are armed only now: the initial configuration load must not park
 	w.Arm(p.Park)
 	if provider != nil && p.Scen.Server != "lookup" {
@@ -248,6 +254,16 @@ func run(p *plan.Plan, res *Result) {
 func finish(s *sched) {
 	w, res := s.w, s.res
 	synctest.Wait()
+	if s.sib != nil {
+		s.recGauges("step") // the burst is over, the sibling's connections are still there
+		s.sib.shutdown()
+		synctest.Wait()
+		select {
+		case <-s.sib.done:
+		default:
+			res.Harness = "sibling server did not stop"
+		}
+	}
 	res.Completed = true
 	if s.probe != nil && !s.probe.KeysIntact() {
 		w.Rec(world.Ev{Actor: "sched", Kind: "secret-mutated"})
